@@ -172,6 +172,31 @@ func (p *Public) WriteTo(w io.Writer) (total int64, err error) {
 	return
 }
 
+// Validate checks that the Config is complete, i.e. that none of the secret or public key material
+// produced by a successful keygen or refresh is missing.
+// It should be called before the Config is used to start a protocol.
+func (c *Config) Validate() error {
+	if c == nil {
+		return errors.New("config: config is nil")
+	}
+	if c.Group == nil {
+		return errors.New("config: group is nil")
+	}
+	if c.ECDSA == nil || c.ElGamal == nil || c.Paillier == nil {
+		return errors.New("config: secret key material is missing")
+	}
+	if _, ok := c.Public[c.ID]; !ok {
+		return errors.New("config: no public data for own ID")
+	}
+	for j, public := range c.Public {
+		if public == nil || public.ECDSA == nil || public.ElGamal == nil ||
+			public.Paillier == nil || public.Pedersen == nil {
+			return fmt.Errorf("config: public data of party %s is incomplete", j)
+		}
+	}
+	return nil
+}
+
 // CanSign returns true if the given _sorted_ list of signers is
 // a valid subset of the original parties of size > t,
 // and includes self.
